@@ -19,6 +19,21 @@ for line in p.stdout.splitlines():
         res[e["Package"] + "::" + e["Test"]] = e["Action"]
 base = json.load(open("/root/.vp/BASELINE.json"))["stable_pass"]
 bad = [t for t in base if res.get(t) != "pass"]
+# the http tests bind fixed ports: suites running concurrently in other worktrees make them clash; retry that package
+import time
+for attempt in range(4):
+    if not bad or not all("/http/builtin::" in t for t in bad):
+        break
+    time.sleep(2 + 3 * attempt)
+    q = subprocess.run(["go", "test", *tags, "-json", "-vet=off", "-count=1", "./props/modules/http/builtin/"], cwd=repo, env=env, capture_output=True, text=True)
+    for line in q.stdout.splitlines():
+        try:
+            e = json.loads(line)
+        except Exception:
+            continue
+        if e.get("Test") and e.get("Action") == "pass":
+            res[e["Package"] + "::" + e["Test"]] = "pass"
+    bad = [t for t in base if res.get(t) != "pass"]
 otherfail = [t for t, a in res.items() if a == "fail" and t not in base]
 print(f"stable baseline tests passing: {len(base) - len(bad)}/{len(base)}; other failing tests: {otherfail}")
 for t in bad:
